@@ -51,8 +51,9 @@ func VerifNewLoop(keyGroupCount int, operators []proto.Operator, keyBatch, opera
 		watermarker:        &wmark.Watermarker{},
 		watermarkTicker:    &time.Ticker{C: l.tick},
 		checkpointBarrier:  make(chan *workerpb.CheckpointBarrier, 1),
-		splitsWereAssigned: make(chan []*workerpb.SourceSplit, 1),
-		sourceChannel:      &connectors.ReadSourceChannel{C: l.reads},
+		splitsWereAssigned: make(chan []*workerpb.SourceSplit), // unbuffered: AssignSplits returns once the loop took it
+		sourceReader:       &verifNopReader{},
+		sourceChannel:      connectors.VerifStartedReadSourceChannel(l.reads),
 		outputStream:       make(chan *workerpb.Event, 1_000),
 		errChan:            errChan,
 		batchingParams:     opParams,
@@ -98,6 +99,13 @@ func (l *VerifLoop) Read(records [][]byte) {
 	l.reads <- func() ([][]byte, error) { return records, nil }
 }
 
+// AssignSplits runs the real HandleAssignSplits with one more split (as split
+// discovery / rebalancing does on a running runner); it returns once the loop
+// has taken the assignment.
+func (l *VerifLoop) AssignSplits(splitID string) error {
+	return l.r.HandleAssignSplits([]*workerpb.SourceSplit{{SplitId: splitID, SourceId: "verif"}})
+}
+
 // Tick makes the watermark ticker fire once.
 func (l *VerifLoop) Tick() { l.tick <- time.Time{} }
 
@@ -119,3 +127,8 @@ func (l *VerifLoop) Sent() (int, []error) {
 func (l *VerifLoop) FlushOperators() { l.r.operators.flush() }
 
 func (l *VerifLoop) Close() { l.cancel() }
+
+type verifNopReader struct{ connectors.UnimplementedSourceReader }
+
+func (*verifNopReader) AssignSplits(splits []*workerpb.SourceSplit) error { return nil }
+func (*verifNopReader) Checkpoint() [][]byte                              { return nil }
